@@ -24,7 +24,9 @@ type fsHistIn struct {
 
 var debugOps = os.Getenv("SIM_DEBUG") != ""
 
-var poolNames = []string{"a", "b", "c"}
+// "ab" is a string prefix-extension of "a": code that matches paths by string prefix instead of
+// by segment is exposed
+var poolNames = []string{"a", "b", "c", "ab"}
 
 // spell renders a normalised path in one of the spellings the quantifier names; it never
 // climbs above the root.
@@ -105,6 +107,9 @@ func genFsOps(r *Rand, n int, extra []string, plainSpelling bool, gm *ModelTree)
 			op.Data = fmt.Sprintf("#%d:%s", i, strings.Repeat("x", r.Pick(0, 0, 1, 3, 17, 64)))
 			if r.Chance(1, 10) {
 				op.Data = ""
+			}
+			if r.Chance(1, 25) && op.Data != "" {
+				op.Big = r.Pick(4096, 33000, 70000) // past buffer, page and "large file" thresholds
 			}
 			if op.Kind == "Writer" {
 				for k := r.Intn(4); k > 0; k-- {
@@ -277,7 +282,7 @@ func (h *histChecker) step(i int, op FsOp) *Failure {
 	}
 	var r FsResult
 	if op.Kind == "WriteFile" {
-		buf := []byte(op.Data)
+		buf := op.Content()
 		r.Err = func() (err error) {
 			defer func() {
 				if p := recover(); p != nil {
@@ -454,6 +459,11 @@ func fsHistShrink(inI interface{}) []interface{} {
 		if op.View != 0 {
 			c := &fsHistIn{Ops: append([]FsOp(nil), in.Ops...)}
 			c.Ops[i].View = 0
+			out = append(out, c)
+		}
+		if op.Big > 0 {
+			c := &fsHistIn{Ops: append([]FsOp(nil), in.Ops...)}
+			c.Ops[i].Big = 0
 			out = append(out, c)
 		}
 		if len(op.Data) > 4 {
